@@ -44,6 +44,7 @@ class Containers:
     def __init__(self, ctx: Ctx, client: ClassInfo) -> None:
         self.ctx = ctx
         self.client = client
+        self.cuts: List[str] = []  # prefix cuts (break / return inside a building loop) met during the last evaluation
 
     def kind(self, fn: FuncInfo, expr: ast.AST, depth: int = 0) -> Tuple[str, str]:
         """(kind, explanation) of a sequence expression relative to the response's binding list."""
@@ -125,6 +126,8 @@ class Containers:
                     res = worse(res, (FILTERED, f"{name}.append is conditional"))
                 for sub in loop.body:
                     for x in ast.walk(sub):
+                        if isinstance(x, (ast.Break, ast.Return)):
+                            self.cuts.append(f"{fn.qualname}: the loop that builds {name} is left early at line {x.lineno}")
                         if isinstance(x, ast.Continue):
                             res = worse(res, (FILTERED, f"`continue` in the loop that builds {name} drops elements in the middle"))
                 # element must be the loop item or a field-wise rebuild of it
